@@ -683,6 +683,33 @@ def check(repo):
                 if s[0] in ("truncate", "fill", "rename", "unlink") and "service_meta" in s[1:3]:
                     r3.fail_fn(side.fm.functions[fname], s[-1], "%s %s touches the state file" % (side_name, fname),
                                "%s %s modifies the state file outside write_service_meta" % (side_name, fname))
+    # ---------------------------------------------------------------- R13.8 the alias table
+    r8 = Rule("R13.8", "the alias table survives a crash of its own writer: it is replaced atomically, or its reader treats an undecodable file as empty")
+    rules.append(r8)
+    snh = repo.module(F.CLI_SNH)
+    loads = [(fi, c) for fi in snh.all_functions() for c in ast.walk(fi.node) if isinstance(c, ast.Call) and (dotted(c.func) or "") in ("json.load", "json.loads")]
+    dumps = [(fi, c) for fi in snh.all_functions() for c in ast.walk(fi.node) if isinstance(c, ast.Call) and (dotted(c.func) or "") in ("json.dump", "json.dumps")]
+    snh_fns = list(snh.all_functions())
+    if r8.require(bool(loads) and bool(dumps), snh_fns[0] if snh_fns else client.init, "alias table reader and writer", "the alias table is no longer read / written as JSON in service_name_handler"):
+        atomic = all(any(isinstance(x, ast.Call) and ((dotted(x.func) or "").endswith((".replace", ".rename")) or dotted(x.func) in ("os.replace", "os.rename")) for x in ast.walk(fi.node))
+                     for fi, _c in dumps)
+        from ..model import ancestors as _anc2
+        for fi, c in loads:
+            tolerant = False
+            for a in _anc2(c):
+                if isinstance(a, ast.Try) and any(c is y for b in a.body for y in ast.walk(b)):
+                    for h in a.handlers:
+                        names = [dotted(x) or "" for x in ([h.type] if h.type is not None and not isinstance(h.type, ast.Tuple) else (h.type.elts if h.type is not None else []))]
+                        if h.type is None or any(nm.split(".")[-1] in ("JSONDecodeError", "ValueError", "Exception") for nm in names):
+                            tolerant = True
+            desc = {"function": fi.qual, "atomic_writer": atomic, "tolerant_reader": tolerant}
+            if atomic or tolerant:
+                r8.ok(desc)
+            else:
+                r8.fail_fn(fi, c, "alias table read intolerant of a torn write",
+                           "%s decodes service_mapping.json without catching a decoding error, while the writer truncates that file in place: a crash between open('w') and "
+                           "the end of json.dump leaves an empty / partial file, after which every command that names a service by alias - including the retried "
+                           "create-service - fails with JSONDecodeError" % fi.qual, witness=desc)
     return rules
 
 
